@@ -98,8 +98,10 @@ ASSUMPTIONS = {
             "kernels are observed through the LLVM back end (the one evaluate uses)"],
     "C04": ["decided on the LLVM lowering of the three kernels generated in one module",
             "the oracle is relative to evaluate (it never asks whether evaluate is right)"],
-    "C05": ["wild reads that influence nothing observable are not detected (garbage twins, not a sanitizer)",
-            "signed 32-bit overflow clause is not decided", "termination is a wall-clock watchdog per run"],
+    "C05": ["reads of uninitialised cells INSIDE a block that influence nothing observable are not detected "
+            "(out-of-block and stale-pointer accesses are, on the guard-page share of the runs)",
+            "signed 32-bit overflow is trapped only on the share of runs compiled from C text",
+            "termination is a wall-clock watchdog per run"],
     "C13": ["immediacy of release is not demanded, only 'not before the last reference and at the "
             "latest at the next collection'"],
     "C14": ["two kernels never execute machine code truly in parallel; pre-emption inside a kernel "
